@@ -1007,12 +1007,22 @@ func (r *multiCIDRRangeAllocator) orderedMatchingClusterCIDRs(node *corev1.Node,
 		return nil, err
 	}
 	if clusterCIDRList, ok := r.cidrMap[defaultSelector.String()]; ok {
+		// The catch all ClusterCIDRs follow the same tie-breakers (P1-P4) among
+		// themselves, their order must not depend on the order they were created in.
+		defaultPQ := make(PriorityQueue, 0)
 		for _, clusterCIDR := range clusterCIDRList {
 			// Same rule as above: terminating ClusterCIDRs are only
 			// considered for a release operation.
 			if !occupy || !clusterCIDR.Terminating {
-				matchingCIDRs = append(matchingCIDRs, clusterCIDR)
+				heap.Push(&defaultPQ, &PriorityQueueItem{
+					clusterCIDR:    clusterCIDR,
+					selectorString: defaultSelector.String(),
+				})
 			}
+		}
+		for defaultPQ.Len() > 0 {
+			pqItem := heap.Pop(&defaultPQ).(*PriorityQueueItem)
+			matchingCIDRs = append(matchingCIDRs, pqItem.clusterCIDR)
 		}
 	}
 	return matchingCIDRs, nil
